@@ -159,6 +159,11 @@ def run_direct(case):
             if c.explicit:
                 res["status"] = "refused"
                 res["note"] = c.info["msg"]
+                known = sum(1 for t in toks if t in proteins.peptide_map or t in proteins.shared_peptides) / len(toks)
+                if known >= 0.97:
+                    # the refusal says peptides could not be mapped, yet (stripped of decorations) >= 97 % of them
+                    # are peptides of the database: modifications / flanks changed the mapping
+                    res.violate("refused_although_peptides_map", "", fraction_in_database=round(known, 4), msg=c.info["msg"], **extra)
                 return res
             res.violate("crash", c.sig, msg=c.info["msg"], **extra)
             return res
@@ -190,7 +195,7 @@ def run_files(case):
     with core.scratch("c15f") as d:
         db, fa = build_db(rng, d, case["order"], nmin=90)
         proteins = mokapot.read_fasta(str(fa), missed_cleavages=0, min_length=6)
-        tab = prot.psm_table_for_db(rng, db, n_spectra=int(rng.integers(500, 900)), styles=("plain", "mod_sq", "flank", "mod_par"),
+        tab = prot.psm_table_for_db(rng, db, n_spectra=int(rng.integers(500, 900)), styles=("plain", "mod_sq", "flank", "mod_par", "mod_two", "mod_flank"),
                                     unknown_frac=0.005, sep=1.0)
         path = psm.write_parquet(tab, d / "t.parquet", row_group_size=101) if case["fmt"] == "parquet" else psm.write_pin(tab, d / "t.pin")
         scores = (tab["df"]["info0"].values + 0.5 * tab["df"]["info1"].values).astype(float)
